@@ -21,6 +21,17 @@ def run(prop, path):
     work = scratch_dir("replay")
     try:
         item = None
+        if rp.get("driver") and rp.get("list_key"):
+            # a call that did not return: the same input goes to the same driver again, under the same watchdog (DoesNotReturn is
+            # turned into the VIOLATION line by main.py)
+            from common import run_driver
+            job = dict(rp.get("job_rest") or {})
+            job[rp["list_key"]] = [rp["item"]]
+            job["out"] = os.path.join(work, "replayed.json")
+            job["warm"] = False
+            run_driver(rp["driver"], [job], work, name="replay")
+            print("  the call returns now")
+            return 0
         if prop in ("C01", "C02", "C03", "C14") and rp.get("vector"):
             ver = {"C01": "3", "C02": "4", "C03": "2"}.get(prop) or ("2" if not rp["vector"].startswith("CVSS") else rp["vector"][5])
             ev = record_events([{"op": "construct", "ver": ver, "s": esc(rp["vector"]), "json": False}], work)
